@@ -39,6 +39,22 @@ value as known at the first mutation, current value):
 Engine H: BFS over histories by replay on fresh objects, dedupe on a canonical
 state (values, loadedness, committed_state, pending mutations, rows).
 
+Value-equality variants (shards tagged ``eq``): the ``ref`` world and a
+unidirectional one-to-many list world are repeated with mapped classes whose
+``__eq__`` / ``__hash__`` are value based so that *distinct rows compare
+equal* - re-pointing c1.p to an equal-but-different parent, or replacing a
+member by an equal one, is a change, must be reported as one and must be
+flushed (object references go by identity).  list.remove(x) and the backref's
+removal go by == in plain Python as well, so the eq list world has no
+remove-by-value op and no child side.
+
+First-mutation coverage: every mutator with its own event path (list pop /
+pop(i) / del [i]; set pop / discard; dict pop(k) / pop(k, default) / popitem /
+setdefault / del [k] / update / clear) is in the alphabet of BOTH tiers and
+therefore occurs as the first mutation after a load (starts ``loaded``,
+``loaded1`` - a single member, which makes set.pop() deterministic -,
+``expired``, ``pending``) and as the first mutation after a flush.
+
 Genuine defect found on the unchanged tree (kept as a violation with a stable
 signature, see the builder report): ``del obj.column_attr`` on a persistent
 object followed by ``flush()`` raises KeyError in
@@ -68,6 +84,14 @@ Mutations caught (private copy, VF_REPO=/tmp/wt-orm3):
     -> col/expired "y = None -> deleted=(), committed value was 1001"
  M7 attributes.py History.from_object_attribute: None kept in deleted ->
     ref "p = p1 -> deleted=(None,), committed value was None"
+ A1 attributes.py History.from_object_attribute: ``current == original`` instead
+    of ``is`` -> ref/.../eq "p = p2 -> changed attribute reports unchanged=('p2',)"
+ A2 attributes.py History.from_collection: membership by == instead of identity
+    -> coll/o2m-list/.../eq "cs.append(c3) -> unchanged+deleted = [c1,c2,c3]"
+ B1 collections.py dict pop: __before_pop after the item left the dict ->
+    coll/o2m-dict/loaded "(first op) cs.pop(c1) -> unchanged+deleted = ['c2'],
+    committed members ['c1', 'c2']"
+ B2 / B3 the same for set pop() and list pop()
 """
 import gc
 import itertools
@@ -117,8 +141,8 @@ META = dict(
         "a list never holds the same child twice (see C37)",
     ],
     bounds=dict(
-        quick="col: fixpoint; ref: fixpoint; coll: depth 3, reduced mutator alphabet",
-        thorough="col: fixpoint; ref: fixpoint; coll: depth 5, full mutator alphabet",
+        quick="col: fixpoint; ref (plain and value-eq classes): fixpoint; coll (4 collection kinds + value-eq list) x 4 starts: depth 3, every event path in the alphabet",
+        thorough="col: fixpoint; ref: fixpoint; coll: depth 5, full mutator alphabet (more argument variety)",
     ),
 )
 
